@@ -48,12 +48,17 @@ def run(ck, P):
         if not feas:
             continue
         nfeasible += 1
+        # conditions written over locals (an `owner` pointer saved before the release, a cached queue length) are read through the
+        # locals' definitions
+        a0 = dict(a)
+        for (k_, v_) in rules.resolve_atoms(pe, [(k, v) for k, v in a0.items() if v in (True, False)]):
+            a.setdefault(k_, v_)
         Ssrc = a.get("src")
         I = tri_and(Ssrc, a.get(aI)) if Ssrc is not False else False
         enq = [e for e in evs if e.kind == "call" and e.callee == "m_queue_enqueue" and S(e.args[1]) == evtp]
         unr = [e for e in evs if e.kind == "call" and e.callee in ("m_mem_unref", "m_mem_unrefp") and S(e.args[0]).lstrip("&") == evtp]
         inv = [e for e in evs if e.kind == "call" and e.callee == "call_pubsub_cb"]
-        ud = [e for e in evs if e.kind == "assign" and S(e.lhs).endswith("->userdata")]
+        ud = [e for e in evs if e.kind == "assign" and (S(e.lhs).endswith("->userdata") or S(e.lhs).endswith(".userdata"))]
         pdesc = rules.fmt_path(pe, path)
         if I is None:
             bad.setdefault("undetermined", ("path does not determine whether the event is internal", pdesc))
@@ -117,32 +122,44 @@ def run(ck, P):
     # comparison operator of the size test: with batch.len == 0 (default) it must be a tautology for unsigned lengths
     sizecmp = [b.term["cond"] for b in pe.blocks.values() if b.term and b.term.get("cond") is not None and "batch.len" in S(b.term["cond"])]
     # however it is spelt (a >= b, !(a < b), b <= a, with either arm first), the handler runs exactly on "pending >= batch.len"
-    okop = False
-    if len(sizecmp) == 1 and strip(sizecmp[0])["k"] == "bin":
-        c0 = strip(sizecmp[0])
+    okop = bool(sizecmp)
+    pdefs = rules.pure_local_defs(pe)
+    for sc in sizecmp:
+        c0 = strip(sc)
+        neg = False
+        while c0["k"] == "un" and c0["op"] == "!":
+            c0 = strip(c0["e"])
+            neg = not neg
+        if c0["k"] != "bin":
+            okop = False
+            continue
         l_, r_, op_ = S(c0["l"]), S(c0["r"]), c0["op"]
         pol = None
         if r_ == "mod->batch.len" and op_ in (">=", "<"):
             pol = op_ == ">="
         elif l_ == "mod->batch.len" and op_ in ("<=", ">"):
             pol = op_ == "<="
-        if pol is not None:
-            blk = [b for b in pe.blocks.values() if b.term and b.term.get("cond") is sizecmp[0]][0]
-            inv = {e.block.id for e in pe.calls("call_pubsub_cb")}
+        if pol is not None and neg:
+            pol = not pol
+        if pol is None:
+            okop = False
+            continue
+        blk = [b for b in pe.blocks.values() if b.term and b.term.get("cond") is sc][0]
+        inv = {e.block.id for e in pe.calls("call_pubsub_cb")}
 
-            def reaches(start):
-                seen_, st_ = set(), [start]
-                while st_:
-                    x_ = st_.pop()
-                    if x_ in inv:
-                        return True
-                    if x_ in seen_ or x_ is None:
-                        continue
-                    seen_.add(x_)
-                    st_.extend(s_ for s_ in pe.blocks[x_].succs if s_ is not None)
-                return False
-            arms = {br_: s_ for (s_, _c, br_) in pe.edges(blk.id)}
-            okop = reaches(arms.get(pol)) and not reaches(arms.get(not pol))
+        def reaches(start):
+            seen_, st_ = set(), [start]
+            while st_:
+                x_ = st_.pop()
+                if x_ in inv:
+                    return True
+                if x_ in seen_ or x_ is None:
+                    continue
+                seen_.add(x_)
+                st_.extend(s_ for s_ in pe.blocks[x_].succs if s_ is not None)
+            return False
+        arms = {br_: s_ for (s_, _c, br_) in pe.edges(blk.id)}
+        okop = okop and reaches(arms.get(pol)) and not reaches(arms.get(not pol))
     ck.ob("C13.1-DECISION", pe.site("size test >="), okop, "size test is '%s'" % [S(c) for c in sizecmp])
     lowret = [b for b in pe.blocks.values() if b.term and b.term.get("cond") is not None and S(b.term["cond"]) == aL]
     ck.ob("C13.1-DECISION", pe.site("LOW tested after HIGH"), bool(lowret), "LOW early return present: %s" % bool(lowret), nontrivial=False)
@@ -201,10 +218,21 @@ def run(ck, P):
     okh = bool(ors) and all(has(X.facts(cs, e), "(type == %d)" % E["M_SRC_TYPE_FD"]) for e in ors)
     ck.ob("C13.2-PRIO", cs.site("fd forced HIGH"), okh, "src->flags |= HIGH under type == M_SRC_TYPE_FD: %s" % okh,
           witness=[("del_event", cs.unit, cs.name, e.block.id, e.idx) for e in ors])
+    # what push_evt compares a source's user pointer with — in a boolean local, in a branch, directly or through a saved copy
     recog = {}
+    import re as _re
+    cand = []
     for ev in pe.events():
-        if ev.kind == "decl" and ev.rhs is not None and strip(ev.rhs)["k"] == "bin" and strip(ev.rhs)["op"] == "==" and "userptr" in S(ev.rhs):
-            recog[S(strip(ev.rhs)["r"])] = ev
+        if ev.kind == "decl" and ev.rhs is not None:
+            cand += [(x, ev) for x in atoms(ev.rhs, True)]
+    for b_ in pe.blocks.values():
+        if b_.term and b_.term.get("cond") is not None:
+            cand += [(x, b_) for x in atoms(b_.term["cond"], True)]
+    for (x, where) in cand:
+        for (a_, _p) in rules.resolve_atoms(pe, [x]):
+            m_ = _re.match(r"^\(src->userptr == (&[\w>.\-]+)\)$", a_)
+            if m_:
+                recog.setdefault(m_.group(1), where)
     for (fname, unit, ptr) in (("m_mod_set_batch_timeout", "Lib/core/evts.c", "&mod->batch"), ("m_mod_set_tokenbucket", "Lib/core/mod.c", "&mod->tb")):
         f = P.fn(fname, unit)
         ck.analysed(f)
